@@ -20,6 +20,7 @@ inductive Val
   | int (i : Int)
   | bool (b : Bool)
   | elem (u : Str)   -- a child *element* (what a Mapping element's `[key]` yields); `str()` is its `.u`
+  | method (owner name : Str)  -- a bound built-in method of a dict / list target (`kwargs.items`, …)
   deriving DecidableEq, Repr, Inhabited
 
 /-- exception classes the real code can let escape -/
@@ -51,6 +52,9 @@ def pyStr : Val → Str
   | .bool true => "True".toList
   | .bool false => "False".toList
   | .elem u => u
+  -- `<built-in method items of dict object at 0x…>`; the harness strips the address
+  | .method owner name =>
+    "<built-in method ".toList ++ name ++ " of ".toList ++ owner ++ " object>".toList
 
 /-! ### `int(n)` on the resolved count (ASCII fragment of CPython's `int(str)`) -/
 
@@ -93,6 +97,7 @@ def coerceCount : Val → Val
   | .bool b => .int (if b then 1 else 0)
   | .none => .none
   | .elem u => .elem u                       -- `int(element)` is a TypeError
+  | .method o n => .method o n               -- so is `int(method)`
   | .str s => match parseInt s with
     | some i => .int i
     | none => .str s                         -- ValueError, caught since b2dcb3b
@@ -127,6 +132,27 @@ def Target.get (t : Target) (k : Str) : Option Val :=
 /-- `as_format_mapping.__getitem__` without the transform: first target that yields a value -/
 def rawLookup (targets : List Target) (k : Str) : Option Val :=
   targets.findSome? (fun t => t.get k)
+
+/-- public attributes of a `dict` (what `getattr(kwargs, key)` finds when `kwargs[key]` misses);
+    pinned against the running interpreter by the extractor -/
+def dictMethodNames : List Str :=
+  ["clear".toList, "copy".toList, "fromkeys".toList, "get".toList, "items".toList, "keys".toList,
+   "pop".toList, "popitem".toList, "setdefault".toList, "update".toList, "values".toList]
+
+/-- public attributes of a `list` -/
+def listMethodNames : List Str :=
+  ["append".toList, "clear".toList, "copy".toList, "count".toList, "extend".toList,
+   "index".toList, "insert".toList, "pop".toList, "remove".toList, "reverse".toList,
+   "sort".toList]
+
+def methodAttrs (owner : Str) (names : List Str) : List (Str × Val) :=
+  -- `dict.fromkeys` is a classmethod: bound to the type, not to the instance
+  names.map (fun n => (n, Val.method (if n = "fromkeys".toList then "type".toList else owner) n))
+
+/-- `**extra_format_args`: a plain dict — `target[item]` first, then `getattr(target, item)`,
+    which finds the dict's own methods -/
+def kwTarget (kw : List (Str × Val)) : Target :=
+  { subscriptable := true, items := kw, attrs := methodAttrs "dict".toList dictMethodNames }
 
 /-- a `ugettext`-like callable restricted to what the harness supplies: a text → text function;
     non-text values pass through unchanged (as `GNUTranslations.gettext` does for keys that
